@@ -3,8 +3,8 @@ import MuduoVerif.Proofs.LoopElt
 # The documented use of `EventLoopThread` (C05 `clean_shutdown`)
 
 One owner thread: `startLoop()`, then any number of submissions, then (optionally) the destructor; user code never
-calls `quit()` on the thread's loop.  Under this discipline the two exceptional all-blocked states of
-`stuck_analysis` (`StartOrphan`, `EarlyDestroy`) cannot occur.
+calls `quit()` on the thread's loop.  Under this discipline the exceptional all-blocked state of
+`stuck_analysis` (`EarlyDestroy`) cannot occur.
 -/
 set_option linter.unnecessarySimpa false
 namespace MuduoVerif.Loop
@@ -232,7 +232,15 @@ theorem stepOwner_ok {tail : List Sub} (htail : tail = [] ∨ tail = [.destroy])
     · by_cases hl : s.loopPtr = true
       · simp [OwnerOk, stepOther, hpc, stepSCheck, hm, hl, setThr, hqf]
         exact Or.inr ⟨b, hbu, hprog⟩
-      · simp [OwnerOk, stepOther, hpc, stepSCheck, hm, hl, setThr, hqf]; exact ⟨b, hbu, hprog⟩
+      · -- nobody has quit the loop, so the loop thread cannot have finished
+        have hnf : s.finished = false := by
+          cases hf : s.finished with
+          | false => rfl
+          | true =>
+            have hd := hi.fin.2.mp hf
+            have := hq.goneReq (Or.inr (Or.inr (by simp [hd, exited])))
+            simp [hqf] at this
+        simp [OwnerOk, stepOther, hpc, stepSCheck, hm, hl, hnf, setThr, hqf]; exact ⟨b, hbu, hprog⟩
   · -- sWaiting
     obtain ⟨hqf, b, hbu, hprog⟩ := hw
     by_cases hm : (s.waiting || s.mtx) = true
@@ -301,7 +309,7 @@ theorem owner_stuck {tail : List Sub} {s : St} (h : OwnerInv tail s) (hs : Stuck
   obtain ⟨hall, hloop⟩ := stuck_analysis h.quit h.eltInv hs
   have hw := h.owner
   unfold OwnerOk at hw
-  rcases hall 0 h0 with hf | ⟨hpc, hph⟩ | ⟨hpc, _, hqf⟩
+  rcases hall 0 h0 with hf | ⟨hpc, _, hqf⟩
   · simp [finished, h0] at hf
     obtain ⟨hpc, hprog⟩ := hf
     refine ⟨hpc, hprog, h.eltInv.noUaf, ?_⟩
@@ -319,10 +327,6 @@ theorem owner_stuck {tail : List Sub} {s : St} (h : OwnerInv tail s) (hs : Stuck
         rcases hfl with hd | hd <;> simp [hd, running] at hr
       · exact hi
     · exact Or.inl ⟨htl, hph, hqt⟩
-  · exfalso
-    simp only [hpc] at hw
-    have := h.quit.goneReq (Or.inr (Or.inr (by simp [hph, exited])))
-    simp [hw.1] at this
   · exfalso
     simp only [hpc] at hw
     simp [hw.1] at hqf
